@@ -686,7 +686,7 @@ def build_leaf(W, desc):
 
 # ------------------------------------------------------------------ more views
 EXT_VIEW_KINDS = ["np_int_mix", "neg_int_mix", "backward_slices", "neg_index_arrays", "index_arrays_2d", "bool_mask_fortran",
-                  "bool_mask_all_false", "np_all_int"]
+                  "bool_mask_all_false", "np_all_int", "index_arrays_same_ndim"]
 
 
 def make_view_ext(rng, shape, kind):
@@ -715,6 +715,10 @@ def make_view_ext(rng, shape, kind):
         return tuple(np.array([rng.randrange(-s, s) for _ in range(k)]) for s in shape)
     if kind == "index_arrays_2d":
         return tuple(np.array([rng.randrange(s) for _ in range(6)]).reshape(2, 3) for s in shape)
+    if kind == "index_arrays_same_ndim":
+        # index arrays whose common shape has as many dimensions as the dataset (the result looks like a pixel grid)
+        shp = (2,) * nd
+        return tuple(np.array([rng.randrange(s) for _ in range(2 ** nd)]).reshape(shp) for s in shape)
     if kind == "bool_mask_fortran":
         return with_layout(common.make_view(rng, shape, "bool_mask"), rng.choice(["F", "transposed", "reversed", "strided"]))
     if kind == "bool_mask_all_false":
